@@ -1,6 +1,7 @@
 CONSTANTS
   Fixed = TRUE
   MaxJumps = 16
+  LabelBuf = 0
   PtrMask = 16384
   ResetOnLabel = FALSE
   Dgrams <- DgCov
